@@ -1,5 +1,6 @@
 import TinsModel.Dns.Spec
 import TinsModel.Dns.Soa
+import TinsModel.Dns.Layout
 import Driver.Util
 /- line-protocol driver for property C10 (DNS): model mode and spec (oracle) mode.
    Ops:  new | parse <hex> [@V Q=.. AN=.. AU=.. AD=.. | @E <getter>] | addq <name> <type> <class>
@@ -114,9 +115,18 @@ def initModel : Msg := {}
 
 /-! ### oracle -/
 
-/-- expected getter results as canonical strings per record; `none` = the case left the specified fragment -/
+/-- expected getter results as canonical strings per record; `none` = the case left the specified fragment.
+    `cls`: "" = a specified initial message (fresh, reference encoding, or ANY accepted message that `wfMsg` accepts:
+    `Props.C10.sections_refine_wf`); "nonwf-forward" / "nonwf-escape" = a laid-out message whose names resolve but
+    which has a pointer into a later section / a pointer that does not designate a label boundary of a stored name
+    (the full statement `names_preserved_all` is still evaluated there: KF-C10-12 / KF-C10-13).
+    `guard`: the stored message has compression pointers, so the theorems ask for a message below 16 KiB. -/
 structure OState where
   exp : Option (List String × List String × List String × List String) := none
+  cls : String := ""
+  guard : Bool := false
+  len : Nat := 0
+  cnt : Nat := 0
 
 def kv (ws : List String) (key : String) : Option String :=
   ws.findSome? (fun w => if w.startsWith (key ++ "=") then some ((w.drop (key.length + 1)).toString) else none)
@@ -127,16 +137,56 @@ def parseListStr (s : String) : Option (List String) :=
     if inner == "" then some [] else some (inner.splitOn ",")
   else none
 
-def checkObs (e : List String × List String × List String × List String) (res : String) (ow : List String) : String :=
+/-- "" when the observation is the expected one, otherwise what differs -/
+def obsDiff (e : List String × List String × List String × List String) (res : String) (ow : List String) : String :=
   let (q, an, au, ad) := e
-  if ow.head? != some res then s!"violates result expected={res} got={ow.head?.getD ""}"
+  if ow.head? != some res then s!"result expected={res} got={ow.head?.getD ""}"
   else if kv ow "h" != some s!"{q.length % 65536},{an.length % 65536},{au.length % 65536},{ad.length % 65536}" then
-    s!"violates counts expected={q.length},{an.length},{au.length},{ad.length} got={(kv ow "h").getD ""}"
-  else if kv ow "Q" != some (showList q) then "violates sections queries"
-  else if kv ow "AN" != some (showList an) then "violates sections answers"
-  else if kv ow "AU" != some (showList au) then "violates sections authority"
-  else if kv ow "AD" != some (showList ad) then "violates sections additional"
-  else "ok"
+    s!"counts expected={q.length},{an.length},{au.length},{ad.length} got={(kv ow "h").getD ""}"
+  else if kv ow "Q" != some (showList q) then "sections queries"
+  else if kv ow "AN" != some (showList an) then "sections answers"
+  else if kv ow "AU" != some (showList au) then "sections authority"
+  else if kv ow "AD" != some (showList ad) then "sections additional"
+  else ""
+
+def verdict (cls : String) (d : String) : String :=
+  if d == "" then "ok" else if cls == "" then "violates " ++ d else s!"violates {cls} names {d}"
+
+def checkObs (e : List String × List String × List String × List String) (res : String) (ow : List String) : String :=
+  verdict "" (obsDiff e res ow)
+
+/-- classification of an accepted message by the decidable predicates of `TinsModel/Dns/Layout.lean` -/
+def classifyMsg (m : Msg) : Option (String × Bool) :=
+  match layoutB m with
+  | none => none
+  | some L =>
+    if !layoutOkB m L then none else
+    let ptrs := L.sites.filter (fun σ => σ.e == σ.x + 2)
+    if !ptrs.all (fun σ => ptrTgtB m L.sites σ) then some ("nonwf-escape", true)
+    else if !ptrs.all (fun σ => ptrSecB m σ) then some ("nonwf-forward", true)
+    else some ("", !ptrs.isEmpty)
+
+/-- an accepted message without annotation: what the implementation shows is the content the following insertions
+    have to extend (`sections_refine_wf`); for a well-formed message the getters must return and the counts agree -/
+def parsePlain (b : Bytes) (ow : List String) : OState × String :=
+  match parse b with
+  | .ok m =>
+    match classifyMsg m with
+    | none => ({}, "unspecified")
+    | some (cls, g) =>
+      match (kv ow "Q").bind parseListStr, (kv ow "AN").bind parseListStr,
+            (kv ow "AU").bind parseListStr, (kv ow "AD").bind parseListStr with
+      | some q, some an, some au, some ad =>
+        let st : OState := { exp := some (q, an, au, ad), cls := cls, guard := g, len := m.recs.length,
+                             cnt := m.q + m.an + m.au + m.ad }
+        (st, verdict cls (obsDiff (q, an, au, ad) "ok" ow))
+      | _, _, _, _ =>
+        -- a getter reported an error although every stored name resolves within the caps
+        ({}, verdict cls "getters-return")
+  | _ => ({}, "unspecified")
+
+/-- may the next insertion of `k` octets still be judged? (header counts fit 16 bits; with pointers: below 16 KiB) -/
+def roomFor (st : OState) (k : Nat) : Bool := st.cnt + 1 < 65536 && (!st.guard || st.len + 12 + k ≤ 16384)
 
 /-- spec mode: each input line is `<op> ||| <implementation output>` -/
 def specStep (st : OState) (line : String) : OState × String :=
@@ -147,10 +197,21 @@ def specStep (st : OState) (line : String) : OState × String :=
     | "new" :: _ =>
       let e : List String × List String × List String × List String := ([], [], [], [])
       ({ exp := some e }, checkObs e "ok" ow)
-    | "parse" :: _ :: "@V" :: rest =>
+    | "parse" :: h :: "@V" :: rest =>
       match (kv rest "Q").bind parseListStr, (kv rest "AN").bind parseListStr,
             (kv rest "AU").bind parseListStr, (kv rest "AD").bind parseListStr with
-      | some q, some an, some au, some ad => ({ exp := some (q, an, au, ad) }, checkObs (q, an, au, ad) "ok" ow)
+      | some q, some an, some au, some ad =>
+        -- a reference encoding of known content: it has to be well-formed (`sections_refine_compressed_partial`)
+        match (parseHex h).map parse with
+        | some (.ok m) =>
+          if wfMsg m then
+            let g := match classifyMsg m with
+              | some (_, g) => g
+              | none => true
+            ({ exp := some (q, an, au, ad), guard := g, len := m.recs.length, cnt := m.q + m.an + m.au + m.ad },
+             checkObs (q, an, au, ad) "ok" ow)
+          else ({}, "bad-annotation:reference-encoding-not-wellformed")
+        | _ => ({}, "bad-annotation:reference-encoding-rejected")
       | _, _, _, _ => ({}, "bad-annotation")
     | "parse" :: _ :: "@E" :: g :: _ =>
       -- a malformed name / pointer loop / out-of-range pointer reachable from getter `g`: it must report an error
@@ -158,17 +219,25 @@ def specStep (st : OState) (line : String) : OState × String :=
       let r := (kv ow g).getD ""
       if (ow.head?.getD "").startsWith "throw:" || r.startsWith "!" then ({}, "ok")
       else ({}, s!"violates malformed-name-reported getter={g}")
-    | "parse" :: _ => ({}, "unspecified")
+    | "parse" :: h :: _ =>
+      match parseHex h with
+      | some b => if ow.head? == some "ok" then parsePlain b ow else ({}, "unspecified")
+      | none => ({}, "bad-line")
     | "addq" :: n :: t :: c :: _ =>
       match st.exp, parseHex n, t.toNat?, c.toNat? with
       | some (q, an, au, ad), some n, some t, some c =>
         match specOfQuery ⟨n, t, c⟩ with
-        | some s => let e := (q ++ [showQuery s.view], an, au, ad); ({ exp := some e }, checkObs e "ok" ow)
+        | some s =>
+          if s.type < 64 && s.cls < 256 && roomFor st s.wire.length then
+            let e := (q ++ [showQuery s.view], an, au, ad)
+            ({ st with exp := some e, len := st.len + s.wire.length, cnt := st.cnt + 1 },
+             verdict st.cls (obsDiff e "ok" ow))
+          else ({}, "unspecified")
         | none => ({}, "unspecified")
       | _, _, _, _ => ({}, "unspecified")
     | "reparse" :: _ =>
       match st.exp with
-      | some e => (st, checkObs e "ok" ow)
+      | some e => (st, verdict st.cls (obsDiff e "ok" ow))
       | none => (st, "unspecified")
     | "ser" :: _ => (st, if st.exp.isSome then "ok" else "unspecified")
     | "soa" :: _ :: rest =>
@@ -189,16 +258,19 @@ def specStep (st : OState) (line : String) : OState × String :=
       | some (q, an, au, ad), some sec, some r =>
         match specOfNew r with
         | some s =>
-          let v := showResource s.view
-          let e := match sec with
-            | .answer => (q, an ++ [v], au, ad)
-            | .authority => (q, an, au ++ [v], ad)
-            | .additional => (q, an, au, ad ++ [v])
-          ({ exp := some e }, checkObs e "ok" ow)
+          if roomFor st s.wire.length then
+            let v := showResource s.view
+            let e := match sec with
+              | .answer => (q, an ++ [v], au, ad)
+              | .authority => (q, an, au ++ [v], ad)
+              | .additional => (q, an, au, ad ++ [v])
+            ({ st with exp := some e, len := st.len + s.wire.length, cnt := st.cnt + 1 },
+             verdict st.cls (obsDiff e "ok" ow))
+          else ({}, "unspecified")
         | none =>
           -- an address text that inet_pton rejects: the call must fail and leave the message as it was
           if (r.type = tA ∨ r.type = tAAAA) ∧ r.aux.isNone ∧ (specOfNew { r with type := 0 }).isSome then
-            (st, checkObs (q, an, au, ad) "throw:invalid_address" ow)
+            (st, verdict st.cls (obsDiff (q, an, au, ad) "throw:invalid_address" ow))
           else ({}, "unspecified")
       | none, some _, some _ => ({}, "unspecified")
       | _, _, _ => (st, "bad-line")
